@@ -801,9 +801,11 @@ def _register_atoms(e):
             ATOM_AST.setdefault(U(x), x)
 
 
-def interval_of(run, ctx, lits, var_text, integer=True):
-    """Tightest [lo, hi] for the integer quantity ``var_text`` implied by comparison literals."""
-    lo, hi = -INF, INF
+def interval_of(run, ctx, lits, var_text, integer=True, domain=None):
+    """Tightest [lo, hi] for the integer quantity ``var_text`` implied by comparison literals (``domain``: known range
+    of the quantity, e.g. (0, 127) for a 7-bit field; != k literals shave the ends)."""
+    lo, hi = (-INF, INF) if domain is None else domain
+    excluded = set()
     names = {var_text} if isinstance(var_text, str) else set(var_text)
     for (txt, pol) in lits:
         try:
@@ -837,6 +839,13 @@ def interval_of(run, ctx, lits, var_text, integer=True):
         elif t is ast.Eq:
             lo = max(lo, k)
             hi = min(hi, k)
+        elif t is ast.NotEq:
+            excluded.add(k)
+    for _ in range(4):
+        if lo in excluded:
+            lo += 1
+        if hi in excluded:
+            hi -= 1
     return lo, hi
 
 
@@ -1766,3 +1775,34 @@ def len_texts(R, g, n, e):
         out.add('len(%s)' % U(v))
         cur, node = v, d
     return out
+
+
+def updates_of(nodes, var, op):
+    """[(node, delta text)] - statements among CFG nodes that update local ``var`` by +delta (op=ast.Add) or -delta
+    (op=ast.Sub): `var += d`, `var = var + d`, `var = d + var` (the latter only for Add)."""
+    out = []
+    for n in nodes:
+        a = n.ast
+        if n.kind != 'stmt':
+            continue
+        if isinstance(a, ast.AugAssign) and U(a.target) == var and isinstance(a.op, op):
+            out.append((n, U(a.value)))
+        elif isinstance(a, ast.Assign) and len(a.targets) == 1 and U(a.targets[0]) == var and isinstance(a.value, ast.BinOp) \
+                and isinstance(a.value.op, op):
+            if U(a.value.left) == var:
+                out.append((n, U(a.value.right)))
+            elif op is ast.Add and U(a.value.right) == var:
+                out.append((n, U(a.value.left)))
+    return out
+
+
+def exactly_once(g, starts, marks, ends, skip_edge=None):
+    """Every path from ``starts`` to ``ends`` passes exactly one of the ``marks`` nodes."""
+    marks = list(marks)
+    if not marks or not all_paths_pass(g, starts, marks, ends, skip_edge=skip_edge):
+        return False
+    for m in marks:
+        after = g.reachable([x for (x, l) in m.succ if not (skip_edge and skip_edge(m, x, l))], avoid=set(ends), skip_edge=skip_edge)
+        if any(m2 in after for m2 in marks):
+            return False
+    return True
